@@ -9,6 +9,8 @@ ASSUMPTIONS = [
     "priq: keys are not NaN; priqExtractMin/priqPeekMin are called on non-empty queues only (of_inlin.c guards with priqCount)",
     "table: the hash function is consistent with the equality function (equal keys have equal hashes); both are given or both are 0, as at every call site",
     "table 7-bucket jobs and enlarge jobs: hash values / key pointers are < 16 (resp. < 128 for 7 -> 13 buckets), which still gives every residue pattern modulo the bucket counts involved",
+    "btree node steps (btree_step_h.c): struct btree's nominal array bound NARY (cport.h: 10, 'enough to quiet bounds checking CCs') is raised to 2t+2 for that translation unit so that a node is ONE TYPED object with two guard parts; the unit requests the same number of bytes (checked in the node allocator); untouched subtrees are opaque pointers into a 64-byte non-node object",
+    "btree whole insert / modular delete step on height-2 trees: the key count of every node is a constant of the job (one job per shape, t = 2); shapes with a 3-key root over more than 8 leaf keys give no result and are scheduled only with VERIF_PROBE_UNDECIDED=1; btreeDelete0's re-entries (on leaves) are bound to a model of its contract whose precondition (a leaf with more than t-1 keys that holds the key) is an obligation",
     "btree: btreeDeleteX is called for keys that are present (store.c deletes what it has just found); node allocator = one whole struct btree with unset branches NULL",
     "dnf: the two allocation sites of dnf.c are routed by a macro on the name stoAlloc to a stub that returns one whole typed struct dnf_And / dnf_Or (NARY slots), with a guard value just past the requested count",
 ]
